@@ -1177,6 +1177,15 @@ func (p *parser) parseFuncContract() (*FuncContract, error) {
 				return nil, err
 			}
 			cs := &CallSpec{Callee: callee, Nth: -1}
+			// "call f site k requires e": only the k'th call of f in source order (k from 0)
+			if p.isId("site") {
+				p.adv()
+				k, err := strconv.Atoi(p.adv().s)
+				if err != nil {
+					return nil, p.errf("call site ordinal expected after site")
+				}
+				cs.Nth = k
+			}
 			if !p.isId("requires") {
 				return nil, p.errf("call clause needs requires")
 			}
